@@ -21,8 +21,8 @@ LEVEL = "exploration"
 DESIGN_REF = "DESIGN.md section 3, C10"
 RULE = ("each run = generated fixture package on disk, traced by the real pipeline (1..2 sessions), then 1..2 rounds of code churn (module removed; function removed / "
         "replaced by a class / by a non-callable / moved into a local scope / parameters renamed; method replaced by a value or made a settable property; class "
-        "removed / rebound to a non-type / to a function), optionally traced again with the new code, with simulated clock jumps reordering rows; then cli.main "
-        "stub|apply (module or module:qualname, with and without -v) is compared with the same command on a twin database holding only the rows an independent "
+        "removed / rebound to a non-type / to a function; a module that still exists importing a removed sibling; values of hidden builtin classes), optionally traced again with the new code, with simulated clock jumps reordering rows; then cli.main "
+        "stub|apply (module or module:qualname, with and without -v, on the SQLite store or on a minimal custom store) is compared with the same command on a twin database holding only the rows an independent "
         "decodability model accepts. non-trivial = the query returned at least one stale row; distinct = distinct plan digests")
 REAL = c01.REAL + ["monkeytype.cli apply (libcst) on the fixture's source file", "importlib on the churned package on disk"]
 STUBBED = c01.STUBBED + ["churn injector (rewrites the fixture package between phases)", "decodability model (derived from the churn ops, independent of MonkeyType)"]
